@@ -27,7 +27,13 @@ type solverSpec struct {
 const z3UnitsPerSecond = 1300000
 
 var solvers = []solverSpec{
+	// z3 5.1 without its automatic per-logic configuration: on these VCs (arrays of arrays, triggered quantifiers,
+	// linear and a little nonlinear integer arithmetic) the general configuration decides in a second what the
+	// automatic one needs minutes for; the automatic one stays in the race.
 	{"z3-5.1.0", func(f string, t int) []string {
+		return []string{"z3-new", "smt.auto_config=false", fmt.Sprintf("rlimit=%d", t*z3UnitsPerSecond), fmt.Sprintf("-T:%d", t*8+60), f}
+	}},
+	{"z3-5.1.0-auto", func(f string, t int) []string {
 		return []string{"z3-new", fmt.Sprintf("rlimit=%d", t*z3UnitsPerSecond), fmt.Sprintf("-T:%d", t*8+60), f}
 	}},
 	{"z3-4.8.12", func(f string, t int) []string {
@@ -415,7 +421,7 @@ func discharge(obs []*Obligation, opt solveOpts) {
 					o.Result, o.Backend = "unsat", win.name
 					if opt.thorough {
 						// cross-check with another back end
-						other := solvers[1]
+						other := solvers[2] // an independent implementation
 						if win.name == other.name {
 							other = solvers[0]
 						}
